@@ -71,59 +71,110 @@ def tagClose (tag : String) : Str := '<' :: '/' :: tag.toList ++ ['>']
 def fbHtml (text : String) : Str :=
   if text == "-" then "<!>".toList else "<u>".toList ++ text.toList ++ "</u>".toList
 
-def parseViews : Nat → List String → Option (List View × List String)
-  | 0, _ => none
-  | _ + 1, [] => some ([], [])
-  | fuel + 1, t :: ts =>
+/-! branching streams (`to_html_stream_*_branching`): branch marker comments are synchronous text; the model knows where
+    they are, not their ids (`{:?}` of a `TypeId`, `0`/`1` of an `Either`, …): a marker is `<!--b-->` and both sides print a
+    run of markers as one.  `mk = 1`: in-order — every `AnyView` (every node the harness builds, every `build_all` tuple)
+    is wrapped; `mk = 2`: out-of-order — `AnyView` is not marked on that path, what is left are the fallbacks (rendered by
+    the synchronous path) and the `Option` a `Suspend` / a resource read resolves to under a boundary. -/
+def mTok : Str := "<!--b-->".toList
+def Mv : View := View.raw mTok
+def wrapIf (b : Bool) (vs : List View) : List View := if b then [Mv] ++ vs ++ [Mv] else vs
+
+def collapseB : Nat → Bool → Str → Str
+  | 0, _, s => s
+  | n + 1, inRun, s =>
+    if mTok.isPrefixOf s then
+      (if inRun then collapseB n true (s.drop 8) else mTok ++ collapseB n true (s.drop 8))
+    else match s with
+      | [] => []
+      | c :: r => c :: collapseB n false r
+
+def countSub (pat : Str) : Nat → Str → Nat
+  | 0, _ => 0
+  | n + 1, s =>
+    match splitFirst pat s with
+    | none => 0
+    | some (_, rest) => 1 + countSub pat n rest
+
+def parseViews (mk : Nat) (nonce : Option Str) : Nat → Bool → List String → Option (List View × List String)
+  | 0, _, _ => none
+  | _ + 1, _, [] => some ([], [])
+  | fuel + 1, under, t :: ts =>
     if t == "]" then some ([], t :: ts) else
     let k := t.front
     let arg := (t.drop 1).toString
     let cont (v : View) (rest : List String) : Option (List View × List String) :=
-      match parseViews fuel rest with
+      match parseViews mk nonce fuel under rest with
       | some (vs, r) => some (v :: vs, r)
       | none => none
-    let body (rest : List String) : Option (List View × List String) :=
-      match parseViews fuel rest with
-      | some (vs, "]" :: r) => some (vs, r)
+    let bodyU (u : Bool) (rest : List String) : Option (List View × List String) :=
+      match parseViews mk nonce fuel u rest with
+      -- `build_all` of nothing is the unit view `()`: `<!>`
+      | some (vs, "]" :: r) => some (if vs.isEmpty then wrapIf (mk == 1) [View.raw "<!>".toList] else vs, r)
       | _ => none
+    let body := bodyU under
+    -- an `AnyView` node
+    let node (v : View) : View := View.seq (wrapIf (mk == 1) [v])
+    -- the `Option` a `Suspend` / a read resolves to under a boundary
+    let opt (vs : List View) : List View := wrapIf (mk == 2 && under) vs
+    let fbv (fb : Str) : Str := if mk ≥ 1 then mTok ++ fb ++ mTok else fb
     if k == 'r' then (strOfHex arg).bind fun s => cont (View.raw s) ts
-    else if k == 't' then (strOfHex arg).bind fun s => cont (View.raw s) ts
+    else if k == 't' then (strOfHex arg).bind fun s => cont (node (View.raw s)) ts
     else if k == 'e' then
       (stripOpen arg).bind fun tag =>
-      (body ts).bind fun (vs, r) => cont (View.seq ([View.raw (tagOpen tag)] ++ vs ++ [View.raw (tagClose tag)])) r
-    else if t == "q[" then (body ts).bind fun (vs, r) => cont (View.seq vs) r
-    else if t == "l[" then (body ts).bind fun (vs, r) => cont (View.seq (vs ++ [View.raw "<!>".toList])) r
+      (body ts).bind fun (vs, r) => cont (node (View.seq ([View.raw (tagOpen tag)] ++ vs ++ [View.raw (tagClose tag)]))) r
+    else if t == "I[" then
+      (body ts).bind fun (vs, r) =>
+        cont (node (View.seq ([View.raw "<leptos-island data-component=\"isl\">".toList] ++ vs ++ [View.raw "</leptos-island>".toList]))) r
+    else if t == "C[" then
+      (body ts).bind fun (vs, r) =>
+        cont (node (View.seq ([View.raw "<leptos-children>".toList] ++ vs ++ [View.raw "</leptos-children>".toList]))) r
+    else if t == "q[" then (body ts).bind fun (vs, r) => cont (node (View.seq vs)) r
+    else if t == "l[" then
+      match parseViews mk nonce fuel under ts with
+      | some (vs, "]" :: r) => cont (node (View.seq (vs ++ [View.raw "<!>".toList]))) r
+      | _ => none
     else if k == 's' then
       (stripOpen arg).bind fun f => f.toNat?.bind fun f =>
-      (body ts).bind fun (vs, r) => cont (View.suspend f (View.seq vs)) r
+      (body ts).bind fun (vs, r) => cont (node (View.suspend f (View.seq (opt vs)))) r
     else if k == 'S' || k == 'T' then
       (stripOpen arg).bind fun fb =>
-      (body ts).bind fun (vs, r) => cont (View.suspense (fbHtml fb) none vs) r
+      (bodyU true ts).bind fun (vs, r) => cont (node (View.suspense (fbv (fbHtml fb)) nonce vs)) r
     else if k == 'N' then
       (stripOpen arg).bind fun a =>
       match a.splitOn ":" with
       | [fb, nh] =>
-        (strOfHex nh).bind fun nonce =>
-        (body ts).bind fun (vs, r) => cont (View.suspense (fbHtml fb) (some nonce) vs) r
+        (strOfHex nh).bind fun n =>
+        (bodyU true ts).bind fun (vs, r) => cont (node (View.suspense (fbv (fbHtml fb)) (some n) vs)) r
       | _ => none
     else if k == 'A' then
       (stripOpen arg).bind fun f => f.toNat?.bind fun f =>
-      (body ts).bind fun (vs, r) =>
-        cont (View.suspense "<!>".toList none [View.suspend f (View.seq vs)]) r
-    else if t == "B[" then (body ts).bind fun (vs, r) => cont (View.eb vs) r
+      (bodyU true ts).bind fun (vs, r) =>
+        cont (node (View.suspense (fbv "<!>".toList) nonce [View.suspend f (View.seq (wrapIf (mk == 2) vs))])) r
+    else if t == "B[" then (body ts).bind fun (vs, r) => cont (node (View.eb vs)) r
     else if k == 'u' then
       (stripOpen arg).bind fun f => f.toNat?.bind fun f =>
-      (body ts).bind fun (vs, r) => cont (View.resSuspend f (View.seq vs)) r
+      (body ts).bind fun (vs, r) => cont (node (View.resSuspend f (View.seq (opt vs)))) r
     else if k == 'g' then
       -- g<kind><k>[ … ]: kind o = OnceResource (loader spawned), r = Resource, d = AsyncDerived (polled once where created)
       let kind := arg.front
       if kind == 'o' || kind == 'r' || kind == 'd' then
         (stripOpen (arg.drop 1).toString).bind fun f => f.toNat?.bind fun f =>
-        (body ts).bind fun (vs, r) => cont (View.resRead (kind == 'o') f (View.seq vs)) r
+        (body ts).bind fun (vs, r) => cont (node (View.resRead (kind == 'o') f (View.seq (opt vs)))) r
       else none
     else if t == "L" || t == "M" then cont View.localRead ts
     else if k == 'W' then arg.toNat?.bind fun f => cont (View.localAwait f) ts
     else none
+
+/-- `<io|ooo>[b][n]` -/
+def parseMode (mode : String) : Option (Bool × Bool × Bool) :=
+  let (ooo, rest) := if mode.startsWith "ooo" then (true, (mode.drop 3).toString) else (false, (mode.drop 2).toString)
+  if !(mode.startsWith "io" || mode.startsWith "ooo") then none
+  else if rest == "" then some (ooo, false, false)
+  else if rest == "b" then some (ooo, true, false)
+  else if rest == "n" then some (ooo, false, true)
+  else if rest == "bn" then some (ooo, true, true)
+  else none
 
 mutual
 /-- an out-of-order chunk whose view future resolves to `None` (`replace = false`) -/
@@ -141,6 +192,30 @@ def hasNoneOooL : List Op → Bool
   | o :: os => hasNoneOoo o || hasNoneOooL os
 end
 
+mutual
+def noncesOf : Op → List Str
+  | .ooo _ _ b n => n.toList ++ noncesOfL b
+  | .async _ b => noncesOfL b
+  | .sub b => noncesOfL b
+  | .ite _ t e => noncesOfL t ++ noncesOfL e
+  | _ => []
+def noncesOfL : List Op → List Str
+  | [] => []
+  | o :: os => noncesOf o ++ noncesOfL os
+end
+
+/-- every `<script nonce="…">` carries one of the given nonces as its attribute value, read up to the next double
+    quote (twin of the harness oracle; F-C07-9: the nonce is written unescaped) -/
+def nonceAttrsOk (nonces : List Str) : Nat → Str → Bool
+  | 0, _ => true
+  | n + 1, s =>
+    match splitFirst "<script nonce=\"".toList s with
+    | none => true
+    | some (_, after) =>
+      match splitFirst ['"'] after with
+      | none => false
+      | some (v, rest) => nonces.contains v && rest.head? == some '>' && nonceAttrsOk nonces n rest
+
 structure St where
   run : Option Run := none
   ooo : Bool := false
@@ -150,6 +225,10 @@ structure St where
   /-- free interleaving (`viewf`): polls print `-`; the final document is computed from a fresh run -/
   free : Option (Bool × List FId × List Op) := none
   sent : List FId := []
+  branch : Bool := false
+  nonceMode : Bool := false
+  progNonces : Option (List Str) := none
+  oooPlainB : Bool := false
 
 def showPoll : Poll → String
   | .pending => "pending"
@@ -168,21 +247,26 @@ def step (st : St) (line : String) : St × String :=
         let ooo := mode == "ooo"
         ({ run := some (startStream ooo done0 ops), ooo := ooo,
            ref := if ooo then oooDocOps ops else docOps ops,
-           cls := "unclassified" }, "ok")
+           cls := "unclassified", progNonces := some (noncesOfL ops) }, "ok")
       else (st, "bad-op")
     | _, _ => (st, "bad-op")
   | "view" :: mode :: d0 :: toks =>
-    match parseNats ',' d0, parseViews (toks.length + 2) toks with
+    match parseMode mode with
+    | none => (st, "bad-op")
+    | some (ooo, branch, nm) =>
+    let mk := if !branch then 0 else if ooo then 2 else 1
+    match parseNats ',' d0, parseViews mk (if nm then some "NONCE".toList else none) (toks.length + 2) false toks with
     | some done0, some (vs, []) =>
-      if mode == "io" || mode == "ooo" then
-        let ooo := mode == "ooo"
-        let v := View.seq vs
-        let cls := if noLate .top v then "unclassified" else "sync-read-late"
-        ({ run := some (startStream ooo done0 (compile ooo .top v)), ooo := ooo, ref := viewDoc v, cls := cls }, "ok")
-      else (st, "bad-op")
+      let v := View.seq (if vs.isEmpty then wrapIf (mk == 1) [View.raw "<!>".toList] else vs)
+      let cls := if noLate .top v then "unclassified" else "sync-read-late"
+      -- F-C07-7: text / elements / tuples / Vecs / islands only: the out-of-order branching stream is not
+      -- `to_html_branching()` of the same view (`AnyView` marks itself on the synchronous and the in-order path only)
+      let syncOnly := toks.all fun t => t == "]" || t.front == 't' || t.front == 'e' || t == "q[" || t == "l[" || t == "I[" || t == "C["
+      ({ run := some (startStream ooo done0 (compile ooo .top v)), ooo := ooo, ref := viewDoc v, cls := cls,
+         branch := branch, nonceMode := nm, oooPlainB := mk == 2 && syncOnly }, "ok")
     | _, _ => (st, "bad-op")
   | "viewf" :: mode :: d0 :: toks =>
-    match parseNats ',' d0, parseViews (toks.length + 2) toks with
+    match parseNats ',' d0, parseViews 0 none (toks.length + 2) false toks with
     | some done0, some (vs, []) =>
       if mode == "io" || mode == "ooo" then
         let ooo := mode == "ooo"
@@ -206,8 +290,11 @@ def step (st : St) (line : String) : St × String :=
     | none => (st, "bad-op")
     | some r =>
       let r := r.poll st.pendingSend
+      let norm (p : Poll) : Poll := match p with
+        | .item s => if st.branch then .item (collapseB s.length false s) else p
+        | p => p
       let o := match r.out.getLast? with
-        | some p => if r.out.length ≥ 2 && (r.out.dropLast.any fun q => q == Poll.panic || q == Poll.stuck) then "dead" else showPoll p
+        | some p => if r.out.length ≥ 2 && (r.out.dropLast.any fun q => q == Poll.panic || q == Poll.stuck) then "dead" else showPoll (norm p)
         | none => "bad-op"
       ({ st with run := some r, pendingSend := [] }, o)
   | ["end", chk] =>
@@ -220,13 +307,19 @@ def step (st : St) (line : String) : St × String :=
       let raw := itemsOf r.out
       let doc := if st.ooo then applyScripts raw else raw
       let finished := r.out.getLast? == some Poll.done
+      let shown := if st.branch then collapseB doc.length false doc else doc
       if chk == "check" then
         let v :=
           if !finished then "fail not-terminated"
-          else if doc == st.ref then "ok"
+          else if (match st.progNonces with | some ns => !nonceAttrsOk ns raw.length raw | none => false) then "fail nonce-unescaped"
+          -- F-C07-8: the chunk of a top-level `Suspend` is pushed without the nonce
+          else if st.nonceMode && countSub "<script".toList raw.length raw != countSub "<script nonce=\"NONCE\">".toList raw.length raw then
+            "fail suspend-no-nonce"
+          else if st.oooPlainB then "fail ooo-branch-markers"
+          else if shown == (if st.branch then collapseB st.ref.length false st.ref else st.ref) then "ok"
           else "fail " ++ st.cls
-        (st, s!"doc {hexOfStr doc} ## {v}")
-      else if chk == "nocheck" then (st, s!"doc {hexOfStr doc}")
+        (st, s!"doc {hexOfStr shown} ## {v}")
+      else if chk == "nocheck" then (st, s!"doc {hexOfStr shown}")
       else (st, "bad-op")
   | _ => (st, "bad-op")
 
